@@ -125,10 +125,11 @@ def printed_blocks(res, tag):
 
 
 def fs_consts(maxreq, maxnodes, ops, rule='asis', rewrite='asis', emit=False,
-              bias='all', randk=1):
+              bias='all', randk=1, emit_tr=False):
     return dict(Names=SS(['a', 'b']), Depth=2, Ops=SS(ops), MaxNodes=maxnodes,
                 MaxReq=maxreq, MapRule=f'"{rule}"', Rewrite=f'"{rewrite}"',
-                Fuel=8, EmitEsc=B(emit), Bias=f'"{bias}"', RandK=randk)
+                Fuel=8, EmitEsc=B(emit), Bias=f'"{bias}"', RandK=randk,
+                EmitTr=B(emit_tr))
 
 
 def ent(name, typ, t='', sub=()):
@@ -207,8 +208,9 @@ def main(ctx):
     else:
         full = (5, 4, rp, rel_t + ['/', '/a', '../a'])
         absr = (6, 4, rp + ['a/../b', '//a'], abs_t + ['/b'])
-    fsdefs = lambda paths, targets, trees: dict(
-        ReqPaths=PS(paths), Targets=PS(targets), InitTrees='<-' + trees)
+    fsdefs = lambda paths, targets, trees, norm=None: dict(
+        ReqPaths=PS(paths), Targets=PS(targets), InitTrees='<-' + trees,
+        NormPaths=PS(norm if norm is not None else paths))
     # one script per reachable file-system shape: breadth-first search over
     # the state-changing requests that build (and relocate) link chains
     build_ops = ['mkdir', 'symlink', 'rename', 'posix_rename', 'link']
